@@ -5,18 +5,22 @@
 //! (this binary re-executed with `--worker`).  The worker writes the call it is about to make (and a
 //! one-byte tag for every getter it is about to read) to a progress file, unbuffered, and re-arms a
 //! per-call `alarm(2)` watchdog; the parent learns from exit status + progress file + captured
-//! stderr which call aborted / hung.  Failing histories are classified by evaluating a *state
-//! predicate* on the real context right before the failing call (`--inspect`): the one known class
-//! `no-word-for-buffered-syllable` (findings F02 and F03) applies iff some syllable in the pre-edit
-//! buffer has no one-syllable word under a lookup strategy in force (the conversion engine's, or that
-//! of an open candidate list), whether the worker aborted or hung; everything else is `new`.  The panic's source
-//! file and message kind are reported for information only.  A few failures per class are shrunk
-//! (calls dropped while the same class still fails at the same site).
+//! stderr which call aborted / hung.  NO KNOWN CLASS REMAINS: every failing history is reported as
+//! `new`.  The former class `no-word-for-buffered-syllable` (findings F02 and F03: some syllable in the
+//! pre-edit buffer has no one-syllable word under a lookup strategy in force — the conversion engine's,
+//! or that of an open candidate list) was repaired in the repository (43e8036, 0f255ea, ce48759); its
+//! *state predicate* is still evaluated on the real context right before a failing call (`--inspect`)
+//! as information for the reader, and on a sample of the generated histories before EVERY call
+//! (`--scan`) as a statistic (`calls_from_noword_state`, …): the evidence must show that word-less
+//! states are exercised.  The former witnesses (F02, F03, the simple-engine hang) stay in the directed
+//! corpus as plain regression histories, followed by the calls an application can make next.  The
+//! panic's source file and message kind are reported for information only.  A few failures per site
+//! are shrunk (calls dropped while the history still fails at the same site).
 //!
 //! Oracle only: there are no model records for the C layer (the editor-level behaviour behind every
 //! call is covered by the `editor` harness + Lean model); the records this binary prints are
 //! `#stat`/`#sample` lines and `!oracle C01 <class> <history>` verdicts.
-use chewing::dictionary::{Dictionary, DictionaryMut, Layered, LookupStrategy, Phrase, SystemDictionaryLoader, Trie, TrieBuf};
+use chewing::dictionary::{Dictionary, DictionaryMut, LookupStrategy, Phrase, SystemDictionaryLoader, Trie, TrieBuf};
 use chewing::zhuyin::Syllable;
 use chewing_capi::candidates::*;
 use chewing_capi::globals::*;
@@ -608,6 +612,92 @@ fn inspect(args: &[String]) {
         let p = chewing_get_phoneSeq(ctx);
         let syls: Vec<u16> = if p.is_null() { vec![] } else { std::slice::from_raw_parts(p, len).to_vec() };
         let _ = writeln!(out, "syls {}", syls.iter().map(|s| s.to_string()).collect::<Vec<_>>().join(" "));
+        for (ps, bs) in user_phrases(ctx) {
+            let _ = writeln!(out, "user {} {}", hbytes(&ps), hbytes(&bs));
+        }
+        let _ = writeln!(out, "END");
+    }
+}
+
+/// `--scan <histories file> <out file>`: STATISTIC only.  Replays every history of the file (no getters, same
+/// per-call watchdog) and evaluates the former class predicate — some buffered syllable has no word under a lookup
+/// strategy in force — on the real context BEFORE every call.  One line per history:
+/// `<index> <calls> <calls from a word-less state> <engine bit mask there> <with a list open> <rearward choice> <candidate-list calls / Down / Tab / Enter there>`
+fn scan(args: &[String]) {
+    let text = std::fs::read_to_string(&args[0]).unwrap();
+    let mut out = std::fs::OpenOptions::new().create(true).append(true).open(&args[1]).unwrap();
+    let first: usize = args[2].parse().unwrap();
+    let mut probes: BTreeMap<String, Probe> = BTreeMap::new();
+    for (hi, h) in text.lines().enumerate().skip(first) {
+        let (dict, calls) = h.split_once(" | ").unwrap_or((h, ""));
+        let probe = probes.entry(dict.to_string()).or_insert_with(|| Probe::load(dict));
+        let _ = writeln!(out, "begin {}", hi);
+        let (mut n, mut n_noword, mut engines, mut n_open, mut n_rear, mut n_list_calls) = (0u64, 0u64, 0u8, 0u64, 0u64, 0u64);
+        unsafe {
+            libc::alarm(20);
+            let ctx = new_ctx(dict);
+            if ctx.is_null() {
+                continue;
+            }
+            let geti = |name: &str| -> c_int {
+                let name = cs(name);
+                chewing_config_get_int(ctx, name.as_ptr())
+            };
+            let mut sel_engines: Vec<i64> = vec![];
+            let mut was_selecting = false;
+            for call in calls.split(" ; ").filter(|c| !c.is_empty()) {
+                cpu_watchdog(2);
+                libc::alarm(10);
+                let before = geti("chewing.conversion_engine") as i64;
+                let selecting = chewing_cand_CheckDone(ctx) == 0;
+                let len = chewing_get_phoneSeqLen(ctx).max(0) as usize;
+                let p = chewing_get_phoneSeq(ctx);
+                let syls: Vec<u16> = if p.is_null() { vec![] } else { std::slice::from_raw_parts(p, len).to_vec() };
+                chewing_free(p.cast());
+                let user = user_phrases(ctx)
+                    .into_iter()
+                    .map(|(p, b)| (String::from_utf8_lossy(&p).to_string(), String::from_utf8_lossy(&b).to_string()))
+                    .collect();
+                let facts = Facts { engine: before, selecting, sel_engines: sel_engines.clone(), syls, user, ok: true };
+                n += 1;
+                if probe.no_word(&facts).is_some() {
+                    n_noword += 1;
+                    engines |= 1 << before.clamp(0, 2);
+                    n_open += selecting as u64;
+                    n_rear += (geti("chewing.phrase_choice_rearward") == 1) as u64;
+                    let t: Vec<&str> = call.split(' ').collect();
+                    n_list_calls += (matches!(t[0], "co" | "cf" | "cl" | "cn" | "cp" | "cx") || (t[0] == "k" && matches!(t[1], "down" | "tab" | "enter" | "space"))) as u64;
+                }
+                run_call(ctx, call);
+                let selecting = chewing_cand_CheckDone(ctx) == 0;
+                if selecting {
+                    if !was_selecting {
+                        sel_engines.clear();
+                    }
+                    for e in [before, geti("chewing.conversion_engine") as i64] {
+                        if !sel_engines.contains(&e) {
+                            sel_engines.push(e);
+                        }
+                    }
+                } else {
+                    sel_engines.clear();
+                }
+                was_selecting = selecting;
+            }
+            cpu_watchdog(0);
+            libc::alarm(20);
+            chewing_delete(ctx);
+            libc::alarm(0);
+        }
+        let _ = writeln!(out, "hist {} {} {} {} {} {} {}", hi, n, n_noword, engines, n_open, n_rear, n_list_calls);
+    }
+    let _ = writeln!(out, "END");
+}
+
+/// the user phrases the context enumerates: (phrase, bopomofo) as bytes
+unsafe fn user_phrases(ctx: *mut ChewingContext) -> Vec<(Vec<u8>, Vec<u8>)> {
+    let mut v = vec![];
+    unsafe {
         chewing_userphrase_enumerate(ctx);
         let mut guard = 0;
         loop {
@@ -621,12 +711,10 @@ fn inspect(args: &[String]) {
             if chewing_userphrase_get(ctx, pbuf.as_mut_ptr().cast(), pbuf.len() as c_uint, bbuf.as_mut_ptr().cast(), bbuf.len() as c_uint) != 0 {
                 break;
             }
-            let ps = CStr::from_ptr(pbuf.as_ptr().cast()).to_bytes().to_vec();
-            let bs = CStr::from_ptr(bbuf.as_ptr().cast()).to_bytes().to_vec();
-            let _ = writeln!(out, "user {} {}", hbytes(&ps), hbytes(&bs));
+            v.push((CStr::from_ptr(pbuf.as_ptr().cast()).to_bytes().to_vec(), CStr::from_ptr(bbuf.as_ptr().cast()).to_bytes().to_vec()));
         }
-        let _ = writeln!(out, "END");
     }
+    v
 }
 
 // ------------------------------------------------------------------ generator
@@ -1024,57 +1112,67 @@ fn inspect_state(exe: &Path, dir: &Path, tag: &str, f: &Failure) -> Facts {
     facts
 }
 
-/// the dictionary the context sees: system layers (read-only, reloaded here) + the user phrases the
-/// context enumerates.  `Layered::remove_phrase` only touches the user layer, so this is exact.
-fn no_word(facts: &Facts, dict: &str) -> Option<u16> {
-    let sys: Vec<Box<dyn Dictionary>> = if dict == "testdata" {
-        let l = SystemDictionaryLoader::new().sys_path(format!("{}/tests/data", repo()));
-        let mut v = l.load().unwrap_or_default();
-        v.extend(l.load_drop_in().unwrap_or_default());
-        v
-    } else {
-        let bytes = std::fs::read(format!("{}/capi/data/mini.dat", repo())).unwrap_or_default();
-        match Trie::new(&bytes[..]) {
-            Ok(t) => vec![Box::new(t) as Box<dyn Dictionary>],
-            Err(_) => vec![],
-        }
-    };
-    let mut user = TrieBuf::new_in_memory();
-    for (p, b) in &facts.user {
-        let syls: Vec<Syllable> = b.split_ascii_whitespace().filter_map(|s| s.parse().ok()).collect();
-        let _ = DictionaryMut::add_phrase(&mut user, &syls, Phrase::new(p.as_str(), 1));
-    }
-    let layered = Layered::new(sys, Box::new(user));
-    // the C API sets options.lookup_strategy together with the engine: fuzzy engine = FuzzyPartialPrefix,
-    // chewing / simple engine = Standard
-    let strat = |e: i64| if e == 2 { LookupStrategy::FuzzyPartialPrefix } else { LookupStrategy::Standard };
-    let mut strategies = vec![strat(facts.engine)];
-    if facts.selecting {
-        // an open phrase selector keeps the strategy it was created with
-        for e in &facts.sel_engines {
-            if !strategies.contains(&strat(*e)) {
-                strategies.push(strat(*e));
+/// the system layers the context sees (read-only, reloaded here); the user phrases come from the context's own
+/// enumeration.  `Layered::remove_phrase` only touches the user layer and a `Layered` look-up is the union of its
+/// layers, so asking the layers one by one is exact.
+struct Probe {
+    sys: Vec<Box<dyn Dictionary>>,
+}
+
+impl Probe {
+    fn load(dict: &str) -> Probe {
+        let sys: Vec<Box<dyn Dictionary>> = if dict == "testdata" {
+            let l = SystemDictionaryLoader::new().sys_path(format!("{}/tests/data", repo()));
+            let mut v = l.load().unwrap_or_default();
+            v.extend(l.load_drop_in().unwrap_or_default());
+            v
+        } else {
+            let bytes = std::fs::read(format!("{}/capi/data/mini.dat", repo())).unwrap_or_default();
+            match Trie::new(&bytes[..]) {
+                Ok(t) => vec![Box::new(t) as Box<dyn Dictionary>],
+                Err(_) => vec![],
             }
-        }
+        };
+        Probe { sys }
     }
-    for s in &facts.syls {
-        if let Ok(syl) = Syllable::try_from(*s) {
-            for st in &strategies {
-                if layered.lookup_first_phrase(&[syl], *st).is_none() {
-                    return Some(*s);
+
+    /// the state predicate of the former class: Some(syllable) iff a buffered syllable has no one-syllable word under
+    /// a lookup strategy in force
+    fn no_word(&self, facts: &Facts) -> Option<u16> {
+        let mut user = TrieBuf::new_in_memory();
+        for (p, b) in &facts.user {
+            let syls: Vec<Syllable> = b.split_ascii_whitespace().filter_map(|s| s.parse().ok()).collect();
+            let _ = DictionaryMut::add_phrase(&mut user, &syls, Phrase::new(p.as_str(), 1));
+        }
+        // the C API sets options.lookup_strategy together with the engine: fuzzy engine = FuzzyPartialPrefix,
+        // chewing / simple engine = Standard
+        let strat = |e: i64| if e == 2 { LookupStrategy::FuzzyPartialPrefix } else { LookupStrategy::Standard };
+        let mut strategies = vec![strat(facts.engine)];
+        if facts.selecting {
+            // an open phrase selector keeps the strategy it was created with
+            for e in &facts.sel_engines {
+                if !strategies.contains(&strat(*e)) {
+                    strategies.push(strat(*e));
                 }
             }
         }
+        for s in &facts.syls {
+            if let Ok(syl) = Syllable::try_from(*s) {
+                for st in &strategies {
+                    if user.lookup_first_phrase(&[syl], *st).is_none() && !self.sys.iter().any(|d| d.lookup_first_phrase(&[syl], *st).is_some()) {
+                        return Some(*s);
+                    }
+                }
+            }
+        }
+        None
     }
-    None
 }
 
-pub const KNOWN_CLASS: &str = "no-word-for-buffered-syllable";
-
-/// Finding class of a failure (abort, hang or any other death).  STATE-BASED: the known class applies
-/// iff, in the state of the real context right before the failing call (right after it when a getter
-/// failed), some buffered syllable has no word under a lookup strategy in force.  Everything else is `new`.
-/// The second component (panic site: file + message kind) is information for the reader.
+/// Class of a failure (abort, hang or any other death): always `new` — no known class remains.  The second
+/// component is information for the reader: the panic site (file + message kind) and, from the state of the real
+/// context right before the failing call (right after it when a getter failed), whether some buffered syllable has
+/// no word under a lookup strategy in force (the predicate of the former class F02 / F03).
 fn classify(exe: &Path, dir: &Path, tag: &str, f: &Failure) -> (String, String) {
     let (dict, _) = f.history.split_once(" | ").unwrap_or((&f.history, ""));
     let facts = inspect_state(exe, dir, tag, f);
@@ -1083,8 +1181,8 @@ fn classify(exe: &Path, dir: &Path, tag: &str, f: &Failure) -> (String, String) 
     if !facts.ok {
         return ("new".into(), format!("state inspection failed; {}", site));
     }
-    if let Some(s) = no_word(&facts, dict) {
-        return (KNOWN_CLASS.into(), format!("engine {} syllable {:#x} has no word; {}", facts.engine, s, site));
+    if let Some(s) = Probe::load(dict).no_word(&facts) {
+        return ("new".into(), format!("engine {} syllable {:#x} has no word; {}", facts.engine, s, site));
     }
     ("new".into(), site)
 }
@@ -1155,36 +1253,88 @@ fn describe(f: &Failure, class: &(String, String)) -> String {
     format!("{} in {} [{}] history: {}", f.how, at, class.1, f.history)
 }
 
-/// directed histories: (label, must still fail in the known class, history).  The witnesses of the two
-/// recorded findings must reproduce on every run; the witnesses of repaired defects stay in the corpus
-/// so that a regression is reported like any other failure (class `new`).
-fn directed() -> Vec<(&'static str, bool, String)> {
+/// directed histories: (label, history).  Plain regression histories: the witnesses of repaired defects stay in
+/// the corpus so that a recurrence is reported like any other failure (class `new`).  The former witnesses of the
+/// class `no-word-for-buffered-syllable` (F02, F03, the simple-engine hang) are replayed as they were AND followed by
+/// the calls an application can make on a word-less syllable (every getter runs after every call); the `noword-*`
+/// histories go through the remaining routes: the list opened on it under each engine, j / k onto it from a
+/// neighbour's list (forward and rearward choice), Tab / Enter / commit, overflow of a buffer limit of 0..2.
+fn directed() -> Vec<(&'static str, String)> {
     let (wo, bo) = (hx("喔"), hx("ㄛ"));
     let (ws, bs) = (hx("測試"), hx("ㄘㄜˋ ㄕˋ"));
-    vec![
-        ("F02", true, "testdata | ci chewing.conversion_engine 2 ; d 104 ; d 103 ; ci chewing.conversion_engine 1".into()),
-        // same state, simple engine: the pre-edit is readable (F30) but opening the candidate list never returns
-        ("F03-simple-engine-hang", true, format!("builtin | ci chewing.conversion_engine 0 ; ua {} {} ; d 112 ; d 55 ; ur {} {} ; k down", hx("嗯"), hx("ㄣ˙"), hx("嗯"), hx("ㄣ˙"))),
-        ("F30-fuzzy-to-simple", false, "testdata | ci chewing.conversion_engine 2 ; d 104 ; d 103 ; ci chewing.conversion_engine 0".into()),
-        ("F03", true, format!("testdata | ua {} {} ; d 105 ; k space ; ur {} {}", wo, bo, wo, bo)),
-        ("F03-builtin", true, format!("builtin | ua {} {} ; d 44 ; d 52 ; ur {} {}", hx("欸"), hx("ㄝˋ"), hx("欸"), hx("ㄝˋ"))),
-        ("F01-fixed", false, "builtin | set shape 1 ; d 1".into()),
-        ("F01-fixed", false, "builtin | set chieng 0 ; set shape 1 ; d 1 ; d 127 ; d 255 ; n 1 ; k tab".into()),
-        ("F04-fixed", false, "testdata | ci chewing.candidates_per_page 1 ; d 104 ; d 107 ; d 52 ; k down ; k right ; cx -1".into()),
-        ("F05-fixed", false, format!("builtin | cs chewing.selection_keys {}", hx("ééééé"))),
-        ("F05-fixed", false, "builtin | selkey 0 0 0 0 0 0 0 0 0 0 ; selkey 200 200 200 200 200 200 200 200 200 200".into()),
-        ("F06-fixed", false, format!("testdata | ua {} {} ; ue 2 2", ws, bs)),
-        ("F06-fixed", false, format!("testdata | ua {} {} ; ue -1 1 ; ue 0 0 ; ue 1 -1 ; ue -2 -2 ; ue -3 3", ws, bs)),
-        ("F40-fixed", false, "testdata | d 104 ; d 107 ; d 52 ; d 65 ; ci chewing.auto_commit_threshold 0 ; k down ; cx 9 ; d 52".into()),
+    let (wn, bn) = (hx("嗯"), hx("ㄣ˙"));
+    let (we, be) = (hx("欸"), hx("ㄝˋ"));
+    let eng = |e: u8| format!("ci chewing.conversion_engine {}", e);
+    let tail = "k down ; co ; cf ; cl ; cn ; cp ; sbi 0 ; cx 0 ; cc ; k tab ; k down ; k esc ; k enter";
+    let list_calls = "k down ; co ; cf ; cl ; cn ; cp ; k space ; k pagedown ; cx 0 ; cc ; k esc";
+    let f02 = format!("testdata | {} ; d 104 ; d 103 ; {}", eng(2), eng(1));
+    let f03 = format!("testdata | ua {} {} ; d 105 ; k space ; ur {} {}", wo, bo, wo, bo);
+    let f03b = format!("builtin | ua {} {} ; d 44 ; d 52 ; ur {} {}", we, be, we, be);
+    let hang = format!("builtin | {} ; ua {} {} ; d 112 ; d 55 ; ur {} {} ; k down", eng(0), wn, bn, wn, bn);
+    let mut v: Vec<(&'static str, String)> = vec![
+        ("F02-fixed", f02.clone()),
+        ("F02-fixed", format!("{} ; {}", f02, tail)),
+        // same state, simple engine: the pre-edit was readable (F30) but opening the candidate list never returned
+        ("F03-simple-engine-hang-fixed", hang.clone()),
+        ("F03-simple-engine-hang-fixed", format!("{} ; k down ; k space ; cn ; cp ; cf ; cl ; k esc ; k tab ; co ; cx 0 ; k enter", hang)),
+        ("F30-fuzzy-to-simple", format!("testdata | {} ; d 104 ; d 103 ; {}", eng(2), eng(0))),
+        ("F03-fixed", f03.clone()),
+        ("F03-fixed", format!("{} ; {}", f03, tail)),
+        ("F03-builtin-fixed", f03b.clone()),
+        ("F03-builtin-fixed", format!("{} ; {}", f03b, tail)),
+        // the list opened on the word-less syllable under each of the three engines, every candidate-list call
+        ("noword-open-list-each-engine", format!(
+            "builtin | ua {} {} ; d 112 ; d 55 ; ur {} {} ; {} ; {lc} ; {} ; {lc} ; {} ; {lc} ; k enter",
+            wn, bn, wn, bn, eng(0), eng(1), eng(2), lc = list_calls
+        )),
+        // the F02 way in (fuzzy engine, partial syllable), then every engine with the list calls, j / k, Tab, Enter
+        ("noword-fuzzy-partial-each-engine", format!(
+            "testdata | {} ; d 104 ; d 103 ; {} ; {lc} ; {} ; {lc} ; {} ; {lc} ; {} ; d 52 ; k left ; k left ; k down ; d 106 ; d 107 ; cc ; k tab ; k enter",
+            eng(2), eng(0), eng(1), eng(2), eng(1), lc = list_calls
+        )),
+        // Tab (break / glue), DblTab, chewing_commit_preedit_buf, Enter around a word-less syllable
+        ("noword-tab-enter-commit", format!(
+            "testdata | ua {} {} ; d 104 ; d 107 ; d 52 ; d 105 ; k space ; d 103 ; d 52 ; ur {} {} ; k tab ; k left ; k tab ; k left ; k tab ; k dbltab ; k home ; k tab ; commit ; ua {} {} ; d 105 ; k space ; ur {} {} ; k tab ; k enter",
+            wo, bo, wo, bo, wo, bo, wo, bo
+        )),
+    ];
+    // j / k onto the word-less syllable from the list of a neighbour, forward and rearward choice, each engine
+    for (rear, e) in [(0u8, 1u8), (1, 1), (0, 0), (1, 2)] {
+        v.push(("noword-jk-from-neighbour", format!(
+            "testdata | ci chewing.phrase_choice_rearward {} ; {} ; ua {} {} ; d 104 ; d 107 ; d 52 ; d 105 ; k space ; d 103 ; d 52 ; ur {} {} ; k home ; k down ; d 106 ; d 106 ; d 107 ; d 107 ; d 107 ; k esc ; k end ; k down ; d 107 ; d 107 ; d 106 ; d 106 ; cn ; cp ; cx 0 ; k left ; co ; cf ; cl ; k esc ; k enter",
+            rear, eng(e), wo, bo, wo, bo
+        )));
+    }
+    // overflow of a buffer limit of 0..2: the word-less syllable is committed by auto-commit (by a key, by a choice)
+    for t in 0..3 {
+        v.push(("noword-auto-commit", format!(
+            "testdata | ua {} {} ; d 105 ; k space ; ur {} {} ; ci chewing.auto_commit_threshold {} ; d 104 ; d 107 ; d 52 ; d 103 ; d 52 ; k down ; cx 0 ; d 104 ; d 107 ; d 52 ; k enter",
+            wo, bo, wo, bo, t
+        )));
+        v.push(("noword-auto-commit", format!(
+            "builtin | {} ; ua {} {} ; d 112 ; d 55 ; d 112 ; d 55 ; ur {} {} ; set maxlen {} ; co ; cx 0 ; d 44 ; d 52 ; k enter",
+            eng((t % 3) as u8), wn, bn, wn, bn, t
+        )));
+    }
+    v.extend(vec![
+        ("F01-fixed", "builtin | set shape 1 ; d 1".into()),
+        ("F01-fixed", "builtin | set chieng 0 ; set shape 1 ; d 1 ; d 127 ; d 255 ; n 1 ; k tab".into()),
+        ("F04-fixed", "testdata | ci chewing.candidates_per_page 1 ; d 104 ; d 107 ; d 52 ; k down ; k right ; cx -1".into()),
+        ("F05-fixed", format!("builtin | cs chewing.selection_keys {}", hx("ééééé"))),
+        ("F05-fixed", "builtin | selkey 0 0 0 0 0 0 0 0 0 0 ; selkey 200 200 200 200 200 200 200 200 200 200".into()),
+        ("F06-fixed", format!("testdata | ua {} {} ; ue 2 2", ws, bs)),
+        ("F06-fixed", format!("testdata | ua {} {} ; ue -1 1 ; ue 0 0 ; ue 1 -1 ; ue -2 -2 ; ue -3 3", ws, bs)),
+        ("F40-fixed", "testdata | d 104 ; d 107 ; d 52 ; d 65 ; ci chewing.auto_commit_threshold 0 ; k down ; cx 9 ; d 52".into()),
         // F41: simple engine, single-word list, chewing_cand_list_first extended the range over the following symbol
         // F22 (C15): a pending user-phrase enumeration read after the user dictionary changed (learning keys, add, remove)
-        ("F22-fixed", false, format!("testdata | ua {} {} ; ua {} {} ; uep ; d 104 ; d 107 ; d 52 ; d 103 ; d 52 ; k enter ; ug ; ur {} {} ; ug ; ug ; uep ; ua {} {} ; ug", ws, bs, wo, bo, ws, bs, ws, bs)),
+        ("F22-fixed", format!("testdata | ua {} {} ; ua {} {} ; uep ; d 104 ; d 107 ; d 52 ; d 103 ; d 52 ; k enter ; ug ; ur {} {} ; ug ; ug ; uep ; ua {} {} ; ug", ws, bs, wo, bo, ws, bs, ws, bs)),
         // F42: chewing_kbtype_String[_static] called ~256 times after one chewing_kbtype_Enumerate overflowed the u8 counter
-        ("F42-fixed", false, "builtin | kbt 300".into()),
-        ("F42-fixed", false, "testdata | kbt 17 ; kbt 257 ; kbt 600".into()),
-        ("F41-fixed", false, "testdata | d 104 ; d 107 ; d 52 ; d 33 ; k home ; k del ; ci chewing.conversion_engine 0 ; d 104 ; d 107 ; d 52 ; cf ; cx 0 ; ci chewing.conversion_engine 1 ; k enter".into()),
-        ("F41-fixed", false, "testdata | d 104 ; d 107 ; d 52 ; d 33 ; k home ; k del ; ci chewing.conversion_engine 0 ; d 104 ; d 107 ; d 52 ; cf ; cf ; cl ; cx 0 ; ci chewing.conversion_engine 2 ; k enter".into()),
-    ]
+        ("F42-fixed", "builtin | kbt 300".into()),
+        ("F42-fixed", "testdata | kbt 17 ; kbt 257 ; kbt 600".into()),
+        ("F41-fixed", "testdata | d 104 ; d 107 ; d 52 ; d 33 ; k home ; k del ; ci chewing.conversion_engine 0 ; d 104 ; d 107 ; d 52 ; cf ; cx 0 ; ci chewing.conversion_engine 1 ; k enter".into()),
+        ("F41-fixed", "testdata | d 104 ; d 107 ; d 52 ; d 33 ; k home ; k del ; ci chewing.conversion_engine 0 ; d 104 ; d 107 ; d 52 ; cf ; cf ; cl ; cx 0 ; ci chewing.conversion_engine 2 ; k enter".into()),
+    ]);
+    v
 }
 
 fn main() {
@@ -1195,6 +1345,10 @@ fn main() {
     }
     if args.len() > 1 && args[1] == "--inspect" {
         inspect(&args[2..]);
+        return;
+    }
+    if args.len() > 1 && args[1] == "--scan" {
+        scan(&args[2..]);
         return;
     }
     let thorough = tier_is_thorough();
@@ -1248,7 +1402,7 @@ fn main() {
 
     let directed = directed();
     let n_directed = directed.len();
-    let mut histories: Vec<String> = directed.iter().map(|d| d.2.clone()).collect();
+    let mut histories: Vec<String> = directed.iter().map(|d| d.1.clone()).collect();
     let mut rng = Rng::new(seed);
     for _ in 0..n_hist {
         let s = rng.next();
@@ -1328,10 +1482,10 @@ fn main() {
             continue;
         }
         let k = printed.entry(c.0.clone()).or_insert(0);
-        let limit = if c.0 == "new" { 25 } else { 3 };
+        let limit = 25;
         if *k < limit {
             *k += 1;
-            let budget = if c.0 == "new" { 15 } else { 4 };
+            let budget = 15;
             let small = if f.how == "hang" || t_class.elapsed() > shrink_box {
                 truncated(f)
             } else {
@@ -1351,7 +1505,7 @@ fn main() {
     out.stat("calls_per_history", n_calls);
     out.stat("directed_histories", n_directed);
     out.stat("failing_histories", failures.len());
-    out.stat("failures_known_class", per_class.get(KNOWN_CLASS).cloned().unwrap_or(0));
+    out.stat("known_classes", 0);
     out.stat("failures_new", per_class.get("new").cloned().unwrap_or(0));
     let hangs = failures.iter().filter(|f| f.1.how == "hang").count();
     out.stat("hangs", hangs);
@@ -1464,19 +1618,99 @@ fn main() {
     out.stat("cand_choose_huge_index", cx_huge);
     out.stat("userphrase_get_short_buffer_enumerations", ue_short);
 
-    // the witnesses of the recorded findings must still fail in their class (KNOWN_FINDINGS.txt would be stale otherwise)
-    let mut stale: Vec<String> = vec![];
-    for (i, (label, must_fail, h)) in directed.iter().enumerate() {
+    // the directed corpus: which histories failed (each failure is an `!oracle C01 new` line above)
+    let mut clean_by_label: BTreeMap<&str, (u64, u64)> = BTreeMap::new();
+    for (i, (label, _)) in directed.iter().enumerate() {
         let got = directed_class.get(&i).cloned().unwrap_or_else(|| "clean".into());
         out.sample(&format!("directed {} -> {}", label, got));
-        if *must_fail && got != KNOWN_CLASS {
-            stale.push(format!("{} ({}) -> {}", label, h, got));
+        let e = clean_by_label.entry(label).or_insert((0, 0));
+        e.0 += 1;
+        e.1 += (got == "clean") as u64;
+    }
+    out.stat("directed_histories_clean", clean_by_label.values().map(|e| e.1).sum::<u64>());
+    let former = |l: &str| l.starts_with("F02") || l.starts_with("F03") || l.starts_with("noword");
+    out.stat("former_noword_class_witnesses", clean_by_label.iter().filter(|(l, _)| former(l)).map(|(_, e)| e.0).sum::<u64>());
+    out.stat("former_noword_class_witnesses_clean", clean_by_label.iter().filter(|(l, _)| former(l)).map(|(_, e)| e.1).sum::<u64>());
+
+    // STATISTIC: how often the campaign's calls start from a word-less state (the predicate of the former class F02 /
+    // F03), measured by replaying the directed corpus and a sample of the generated histories in `--scan` processes
+    let n_scan = (if thorough { 6000 } else { 1500 }).min(histories.len());
+    let scan_file = dir.join("scan.txt");
+    std::fs::write(&scan_file, histories[..n_scan].join("\n") + "\n").unwrap();
+    let chunk = n_scan.div_ceil(threads);
+    let mut handles = vec![];
+    for tid in 0..threads {
+        let (exe, dir, scan_file) = (exe.clone(), dir.clone(), scan_file.clone());
+        handles.push(std::thread::spawn(move || {
+            // histories [lo, hi) of the file; a scan process that dies is restarted behind the history it died in
+            let (lo, hi) = (tid * chunk, ((tid + 1) * chunk).min(n_scan));
+            let of = dir.join(format!("scan{}.out", tid));
+            let mut lines: Vec<String> = vec![];
+            let mut first = lo;
+            while first < hi {
+                let _ = std::fs::remove_file(&of);
+                let part = dir.join(format!("scan{}.in", tid));
+                let text = std::fs::read_to_string(&scan_file).unwrap();
+                std::fs::write(&part, text.lines().skip(first).take(hi - first).collect::<Vec<_>>().join("\n") + "\n").unwrap();
+                let _ = Command::new(&exe).arg("--scan").arg(&part).arg(&of).arg("0").stdin(Stdio::null()).stdout(Stdio::null()).stderr(Stdio::null()).status();
+                let got = std::fs::read_to_string(&of).unwrap_or_default();
+                let done = got.lines().any(|l| l == "END");
+                let begun = got.lines().filter(|l| l.starts_with("begin ")).count();
+                // `hist <index in the part> …` -> absolute index
+                for l in got.lines().filter(|l| l.starts_with("hist ")) {
+                    let mut t: Vec<String> = l.split(' ').map(|x| x.to_string()).collect();
+                    t[1] = (t[1].parse::<usize>().unwrap_or(0) + first).to_string();
+                    lines.push(t.join(" "));
+                }
+                if done {
+                    break;
+                }
+                first += begun.max(1);
+            }
+            lines
+        }));
+    }
+    let (mut sc_hist, mut sc_calls, mut sc_noword, mut sc_hist_noword, mut sc_open, mut sc_rear, mut sc_list) = (0u64, 0u64, 0u64, 0u64, 0u64, 0u64, 0u64);
+    let mut sc_engine = [0u64; 3];
+    let mut sc_directed_noword = 0u64;
+    for h in handles {
+        for l in h.join().unwrap() {
+            let t: Vec<u64> = l.split(' ').skip(1).filter_map(|x| x.parse().ok()).collect();
+            if t.len() < 7 {
+                continue;
+            }
+            // the break-down below counts the directed corpus too (it is replayed on every run); the totals and the
+            // estimate for the whole campaign are from the sampled generated histories only
+            if (t[0] as usize) < n_directed {
+                sc_directed_noword += t[2];
+            } else {
+                sc_hist += 1;
+                sc_calls += t[1];
+                sc_noword += t[2];
+                sc_hist_noword += (t[2] > 0) as u64;
+            }
+            for (e, n) in sc_engine.iter_mut().enumerate() {
+                *n += ((t[3] >> e) & 1 == 1) as u64;
+            }
+            sc_open += t[4];
+            sc_rear += t[5];
+            sc_list += t[6];
         }
     }
-    out.stat("known_witnesses_reproduced", directed.iter().filter(|d| d.1).count() - stale.len());
-    out.flush();
-    if !stale.is_empty() {
-        eprintln!("witness of a recorded finding no longer fails in class {}: {}", KNOWN_CLASS, stale.join("; "));
-        std::process::exit(3);
+    out.stat("directed_calls_from_noword_state", sc_directed_noword);
+    out.stat("scan_generated_histories", sc_hist);
+    out.stat("scan_calls", sc_calls);
+    out.stat("calls_from_noword_state", sc_noword);
+    out.stat("histories_reaching_noword_state", sc_hist_noword);
+    for (e, n) in sc_engine.iter().enumerate() {
+        out.stat(&format!("noword_incl_directed.histories_under_engine.{}", e), n);
     }
+    out.stat("noword_incl_directed.calls_with_list_open", sc_open);
+    out.stat("noword_incl_directed.calls_with_rearward_choice", sc_rear);
+    out.stat("noword_incl_directed.list_calls_down_tab_enter_space", sc_list);
+    if sc_hist > 0 {
+        // extrapolated to the whole campaign (same generator, same seed stream)
+        out.stat("calls_from_noword_state_estimated_campaign", sc_noword * (histories.len() - n_directed) as u64 / sc_hist);
+    }
+    out.flush();
 }
